@@ -447,7 +447,7 @@ def run(env, with_model=True):
     marked = [(name, m, inject(tpl, m)) for name, tpl in POSITIONS for m in MARKERS]
     var_single, var_pair = variable_sources(cp)
     var_pair_corr = env.rng.sample(var_pair, min(len(var_pair), env.budget(1500, 8000)))
-    var_pos = [s for name, _, s in pos if name.startswith("variable") or name == "string_in_structures"]
+    var_pos = [s for name, _, s in pos if name.startswith("variable") or (env.thorough and name == "string_in_structures")]
 
     # ---- (1) text correspondence (code-page characters only: the text model is exact there) -----
     cpset = set(cp)
